@@ -2443,7 +2443,11 @@ impl SctpInner {
             if !stream_ssn_pairs.is_empty() {
                 let mut streams = self.inbound_streams.lock();
                 for (sid, ssn) in &stream_ssn_pairs {
-                    if let Some(stream) = streams.get_mut(sid) {
+                    // The stream may have no state yet (its very first message was the one
+                    // abandoned): the skipped SSN must still be passed over, or every later
+                    // message of the stream waits for it for ever.
+                    {
+                        let stream = streams.entry(*sid).or_insert_with(InboundStream::new);
                         stream.advance_ssn_to(*ssn);
                         // Deliver any messages that are now ready
                         let ready = stream.drain_ready();
